@@ -503,6 +503,132 @@ fn replay_probe(_v: &Value) -> Result<Outcome, String> {
     Err("the send_generic clause is a compile probe: re-run `./check C17 quick`".into())
 }
 
+// ------------------------------------------------------------------------------------------
+// wall-clock independence: the same history with real pauses inserted
+
+#[derive(Clone, Debug, Serialize, Deserialize, PartialEq, Eq, Hash)]
+pub struct ClockCase {
+    pub codec: u8,
+    pub via_builder: bool,
+    pub frag_ms: u32,
+    pub n: u8,
+    pub pause_ms: u32,
+    /// progressive muxer instead of the fragmented one
+    pub progressive: bool,
+}
+
+fn clock_cases(t: Tier) -> Vec<ClockCase> {
+    // one pause per history; the quick tier waits 1.25 s, the thorough tier up to 9 s
+    let pauses: &[u32] = if t == Tier::Quick { &[1250] } else { &[1250, 4500, 9000] };
+    let mut v = Vec::new();
+    for &pause_ms in pauses {
+        for (codec, via_builder, frag_ms, n) in [(0u8, false, 100u32, 2u8), (1, false, 500, 3), (2, true, 2000, 3), (3, false, 50, 1), (0, false, 1, 2), (1, true, 2000, 5)] {
+            v.push(ClockCase { codec, via_builder, frag_ms, n, pause_ms, progressive: false });
+        }
+        v.push(ClockCase { codec: 0, via_builder: false, frag_ms: 0, n: 3, pause_ms, progressive: true });
+        v.push(ClockCase { codec: 2, via_builder: false, frag_ms: 0, n: 2, pause_ms, progressive: true });
+    }
+    v
+}
+
+fn eval_clock(c: &ClockCase) -> Outcome {
+    use crate::frag::*;
+    let mut o = Outcome::default();
+    o.nontrivial = true;
+    let pause = std::time::Duration::from_millis(c.pause_ms as u64);
+    if c.progressive {
+        let mut base = crate::scenario::long_cases(false).into_iter().next().unwrap();
+        base.cfg.codec = c.codec;
+        base.cfg.audio = 1;
+        if let Some(e) = base.expand.as_mut() {
+            e.nv = c.n as u32 + 2;
+            e.na = 4;
+        }
+        let l = lower(&base);
+        let fast = run_history(&l.cfg, &l.ops);
+        // slow: the same calls, one real pause after the second call and one before the finish
+        let n_ops = l.ops.len();
+        let shared = RecSink::new();
+        let slow = crate::exec::run_paused(shared.clone(), &l.cfg, &l.ops, vec![2, n_ops - 1], pause / 2);
+        let slow_res = slow.results;
+        if shared.bytes() != fast.out || !same_returns(&slow_res, &fast.results) {
+            o.fail("clock", "clock.progressive", format!("a progressive history paused for {} ms in the middle gives a different file or different returns", c.pause_ms));
+        }
+        return o;
+    }
+    let cfg = FCfg { frag_ms: c.frag_ms, via_builder: c.via_builder, ..crate::fragcase::fcfg(&crate::fragcase::FragCase {
+        codec: c.codec,
+        via_builder: c.via_builder,
+        start: 0,
+        width: 640,
+        height: 480,
+        pset_len: (12, 5, 7),
+        ops: vec![],
+        const_interval: None,
+        realistic: true,
+    }) };
+    // span of the queued samples stays below the target (for the tiny targets it is above: both answers are exercised)
+    let mut ops: Vec<FOp> = Vec::new();
+    for i in 0..c.n as u64 {
+        ops.push(FOp::Write { pts: i * 900, dts: i * 900, data: crate::fragcase::realistic_payload(c.codec, 30, i == 0, i), sync: i == 0 });
+    }
+    ops.extend([FOp::Ready, FOp::DurMs, FOp::Init]);
+    ops.push(FOp::Write { pts: c.n as u64 * 900, dts: c.n as u64 * 900, data: crate::fragcase::realistic_payload(c.codec, 20, false, 99), sync: false });
+    ops.extend([FOp::Ready, FOp::Flush, FOp::Ready, FOp::DurMs, FOp::Flush, FOp::Init]);
+    let fast = run_frag(&cfg, &ops);
+    // slow run: the pause sits right before the first query (the samples have been queued for `pause` of real time)
+    let mut slow: Vec<FRes> = Vec::new();
+    let mut first = true;
+    let mut cur: Vec<FOp> = Vec::new();
+    // run_frag has no pause hook: replay prefixes is not equivalent, so drive the muxer directly
+    match build_frag(&cfg) {
+        Ok(Ok(mut m)) => {
+            for op in &ops {
+                cur.push(op.clone());
+                let r = match op {
+                    FOp::Write { pts, dts, data, sync } => match m.write_video(*pts, *dts, data, *sync) {
+                        Ok(()) => FRes::WriteOk,
+                        Err(e) => FRes::WriteErr { prev: 0, curr: 0, display: format!("{}", e) },
+                    },
+                    FOp::Flush => FRes::Flush(m.flush_segment()),
+                    FOp::Ready => {
+                        if first {
+                            std::thread::sleep(pause);
+                            first = false;
+                        }
+                        FRes::Ready(m.ready_to_flush())
+                    }
+                    FOp::DurMs => FRes::DurMs(m.current_fragment_duration_ms()),
+                    FOp::Init => FRes::Init(m.init_segment()),
+                };
+                slow.push(r);
+            }
+        }
+        _ => {
+            o.class("build_failed");
+            return o;
+        }
+    }
+    if fast.panic.is_some() {
+        o.aborted_by_panic = fast.panic.clone();
+        return o;
+    }
+    for (i, (a, b)) in fast.results.iter().zip(slow.iter()).enumerate() {
+        if a != b {
+            let what = match &ops[i] {
+                FOp::Write { .. } => "write_video",
+                FOp::Flush => "flush_segment",
+                FOp::Ready => "ready_to_flush",
+                FOp::DurMs => "current_fragment_duration_ms",
+                FOp::Init => "init_segment",
+            };
+            o.fail("clock", format!("clock.fragmented.{}", what), format!("op {} ({}) answers differently after a real pause of {} ms (fragment target {} ms)", i, what, c.pause_ms, c.frag_ms));
+            break;
+        }
+    }
+    o
+}
+
 pub fn def() -> PropertyDef {
     PropertyDef {
         fuzz_targets: &[],
@@ -515,12 +641,18 @@ pub fn def() -> PropertyDef {
                Byte equality and equal returns against a single-threaded reference. Non-trivial: every case (each compares >= 2 executions)",
         assumptions: &[
             "'Muxer<W> is Send for ALL W: Send' quantifies over types; it is checked by a compile probe (harness/send_probe), not by generated search",
-            "wall-clock independence is exercised only by running at different times (nothing on the muxing path reads a clock; with_current_time is not generated)",
+            "wall-clock independence: besides running at different times, a fixed list of histories is re-run with real pauses of 1.25 s (quick) to 9 s (thorough); behaviour that changes only after a longer real-time wait is not reached; with_current_time is not generated",
         ],
         subs: vec![
             Box::new(PSub { name: "instances_threads_sinks", quick: 1200, thorough: 40000, strat: pure_strategy, eval: eval_pure }),
             Box::new(PSub { name: "equivalent_paths", quick: 8000, thorough: 250000, strat: path_strategy, eval: eval_paths }),
             Box::new(ESub { name: "send_generic", run: run_probe, replay: replay_probe }),
+            Box::new(LSub {
+                name: "wall_clock",
+                cases: clock_cases,
+                eval: eval_clock,
+                note: "fixed list: fragmented (targets 1 .. 2000 ms, direct and builder configs) and progressive histories run twice, once back to back and once with a real pause (1.25 s quick; 1.25 / 4.5 / 9 s thorough) before the first query / in the middle; every answer and every byte must agree",
+            }),
         ],
     }
 }
